@@ -692,7 +692,30 @@ pub fn generate(seed: u64, tier: &str, property: &str) -> RegScenario {
     let mut ops: Vec<Op> = Vec::new();
     let mut notes: Vec<OpNote> = Vec::new();
     let valid_items: Vec<(String, String)> = specs.iter().map(|s| (s.name.clone(), render_src(s))).collect();
-    match rng.below(4) {
+    // disk mode: the first k templates (edges point to lower indices, so the set is closed under
+    // dependencies) live in files below tpl/ and are loaded by a glob; the rest is added by
+    // hand. Files can then *vanish* or change under a reload — the only way a template ever
+    // leaves a registry — which flips resolution (exact name -> prefix) and can dangle or close
+    // cycles through templates that no call touched.
+    let disk_mode = !deep && rng.chance(1, 4);
+    let mut file_names: Vec<String> = Vec::new();
+    let hexs = |t: &str| crate::sval::hex(t.as_bytes());
+    let first = if disk_mode { 99 } else { rng.below(4) };
+    match first {
+        99 => {
+            let k = rng.range(1, n);
+            for it in valid_items.iter().take(k) {
+                ops.push(Op::DiskWrite { path: format!("tpl/{}", it.0), hex: hexs(&it.1) });
+                notes.push(OpNote::default());
+                file_names.push(it.0.clone());
+            }
+            ops.push(Op::LoadGlob { pattern: "tpl/**/*".into(), faults: vec![] });
+            notes.push(OpNote::default());
+            if k < n {
+                ops.push(Op::AddBatch { items: valid_items[k..].to_vec() });
+                notes.push(OpNote::default());
+            }
+        }
         0 => {
             // one batch, random order
             let mut it = valid_items.clone();
@@ -752,6 +775,50 @@ pub fn generate(seed: u64, tier: &str, property: &str) -> RegScenario {
         if clone_at == Some(mi) {
             ops.push(Op::CloneSwap);
             notes.push(OpNote::default());
+        }
+        if disk_mode && rng.chance(1, 2) {
+            let prefixed: Vec<&String> = names.iter().filter(|nm| prefixes.iter().any(|p| nm.starts_with(p.as_str()))).collect();
+            if !prefixed.is_empty() && rng.chance(1, 2) {
+                // shadow, lean on the shadow, then let the shadow vanish: an exact-name twin of a
+                // prefixed template arrives as a file; the prefixed template then includes its
+                // own short name (legal: it reaches the twin); the twin's file is deleted and the
+                // registry reloaded: the include would now reach the includer itself
+                let full = rng.pick(&prefixed).clone();
+                let short = prefixes.iter().find_map(|p| full.strip_prefix(p.as_str())).unwrap().to_string();
+                let twin = GSpec { name: short.clone(), extends: None, incs: vec![], super_call: false };
+                ops.push(Op::DiskWrite { path: format!("tpl/{}", short), hex: hexs(&render_src(&twin)) });
+                notes.push(OpNote::default());
+                ops.push(Op::FullReload { faults: vec![] });
+                notes.push(OpNote { invalid: Some("exact-name-twin-file".into()), replaces_dependency: true });
+                let xi = names.iter().position(|nm| *nm == full).unwrap();
+                let mut sp = specs[xi].clone();
+                sp.incs.push((short.clone(), place(&rng)));
+                ops.push(Op::AddRaw { name: full.clone(), source: render_src(&sp) });
+                notes.push(OpNote { invalid: Some("include-own-short-name".into()), replaces_dependency: true });
+                ops.push(Op::DiskDelete { path: format!("tpl/{}", short) });
+                notes.push(OpNote::default());
+                ops.push(Op::FullReload { faults: vec![] });
+                notes.push(OpNote { invalid: Some("file-vanishes".into()), replaces_dependency: true });
+                if rng.chance(1, 2) {
+                    file_names.push(short);
+                }
+            } else if !file_names.is_empty() {
+                let f = rng.pick(&file_names).clone();
+                ops.push(Op::DiskDelete { path: format!("tpl/{}", f) });
+                notes.push(OpNote::default());
+                ops.push(Op::FullReload { faults: vec![] });
+                notes.push(OpNote { invalid: Some("file-vanishes".into()), replaces_dependency: true });
+                if rng.chance(1, 2) {
+                    // ... and comes back
+                    if let Some(it) = valid_items.iter().find(|it| it.0 == f) {
+                        ops.push(Op::DiskWrite { path: format!("tpl/{}", f), hex: hexs(&it.1) });
+                        notes.push(OpNote::default());
+                        ops.push(Op::FullReload { faults: vec![] });
+                        notes.push(OpNote::default());
+                    }
+                }
+            }
+            continue;
         }
         let x = rng.below(n);
         let mut s = specs[x].clone();
@@ -819,7 +886,12 @@ pub fn generate(seed: u64, tier: &str, property: &str) -> RegScenario {
             }
         };
         let item = (s.name.clone(), render_src(&s));
-        if rng.chance(1, 3) {
+        if disk_mode && file_names.contains(&item.0) && rng.chance(1, 2) {
+            // the change arrives through the file and a reload
+            ops.push(Op::DiskWrite { path: format!("tpl/{}", item.0), hex: hexs(&item.1) });
+            notes.push(OpNote::default());
+            ops.push(Op::FullReload { faults: vec![] });
+        } else if rng.chance(1, 3) {
             // inside a batch together with an unrelated valid re-add
             let other = rng.pick(&valid_items);
             let mut items = vec![other, item];
